@@ -588,6 +588,8 @@ def run_check(check, tier, seed, jobs=None, extra_bounded=None):
     tasks = []
     for ref in check.harnesses:
         h = load_harness(ref)
+        if getattr(h, "fp_only", False):
+            continue
         for shape in h.shapes(tier):
             tasks.append((ref, shape))
     records = []
